@@ -1435,7 +1435,7 @@ HARD_FFT_PAIRS = [(96, 83), (83, 96), (50, 107), (149, 100), (167, 64), (64, 173
 COUNTED_OPS = ('PIB', 'SETRATIO', 'SETREL', 'SETCHUNK', 'RESET')
 
 
-PINNED_HASHES = {'windows_rs': 'e55e5fc09b4710ef3e62fea2b571dedf', 'sinc_rs': '18e3e78bb9f80e27247b3dbbc99c08a0',
+PINNED_HASHES = {'windows_rs': 'e55e5fc09b4710ef3e62fea2b571dedf', 'sinc_rs': '836f229828bb0600c659cb0ef072f0bb',
                  'interpolation_rs': '4d7e253a90c7263f50b19e37a69a79fe', 'fft_core': 'b42bed0dd611432617a6cd35a406882c'}
 
 
@@ -1523,7 +1523,7 @@ def run_C09(ctx):
 
 # ================================================================== C17
 EPS32 = 2.0 ** -23
-C17_TOL = 48.0          # multiples of f32 epsilon times the peak (measured maximum on the pinned tree: see DESIGN.md)
+C17_TOL = 32.0          # multiples of f32 epsilon times the peak (measured maximum on the repaired tree: 7; before the make_sincs fix: 250)
 
 
 def run_C17(ctx):
@@ -1557,6 +1557,21 @@ def run_C17(ctx):
         a = Case("ty_%04d_%s_64" % (i, k), h.spec, {'cfg': cfg, 'kind': k})
         cfg32 = dict(cfg); cfg32['ty'] = 'f32'
         b = Case("ty_%04d_%s_32" % (i, k), ["T ty=f32"] + h.spec[1:], {'cfg': cfg32, 'is_twin': True})
+        a.meta['twin'] = b
+        cases += [a, b]
+    # large chunks with heavy oversampling (implementation only: too costly for the extracted model): position-
+    # dependent precision loss in the sample type shows only here
+    for i in range(0 if getattr(ctx, 'replay_lines', None) else (8 if ctx.quick else 60)):
+        r = rng.fork("c17big_%d" % i)
+        k = ['sincin', 'sincout'][i % 2]
+        cfg = async_cfg(r, k, 'quick', ty='f64', nch=1)
+        cfg.update(chunk=r.choice([1024, 2048, 4096]), factor=r.choice([128, 256, 512]), itype=r.choice([0, 1, 2]), slen=64, L=64,
+                   interp='default', maxrel=1.0, ratio=pick_ratio(r, 0.5, 2.0))
+        sig = "sine:%s:%s" % (f64hex(r.uniform(0.05, 0.2)), f64hex(r.uniform(0, 6.28)))
+        lines = ["T ty=f64", new_line(cfg)] + ["PIB mask=- inlen=next outlen=next sig=%s" % sig for _ in range(3)]
+        a = Case("tybig_%03d_%s_64" % (i, k), lines, {'cfg': cfg, 'kind': k + '/big', 'no_model': True})
+        cfg32 = dict(cfg); cfg32['ty'] = 'f32'
+        b = Case("tybig_%03d_%s_32" % (i, k), ["T ty=f32"] + lines[1:], {'cfg': cfg32, 'is_twin': True, 'no_model': True})
         a.meta['twin'] = b
         cases += [a, b]
     worst = [0.0]
@@ -1934,7 +1949,8 @@ def sinc_probe_cfg(r, quick, model):
     itype = r.below(4)
     factor = r.choice([2, 4, 16, 64, 128, 256, 1024, 2048]) if itype < 2 else r.choice([1, 4, 16, 128, 256, 2048])
     ratio = pick_ratio(r) if not model else pick_ratio(r, 0.4, 3.0)
-    cfg = {'kind': r.choice(['sincin', 'sincout']), 'ty': r.choice(['f64', 'f64', 'f32']), 'ratio': ratio, 'maxrel': 1.0, 'nch': 1,
+    cfg = {'kind': r.choice(['sincin', 'sincout']), 'ty': r.choice(['f64', 'f64', 'f32']), 'ratio': ratio,
+           'maxrel': r.choice([1.0, 1.0, 1.1, 2.0, 10.0]), 'nch': 1,
            'itype': itype, 'slen': L, 'L': L, 'factor': factor, 'window': w, 'interp': 'default',   # the public constructor: make_interpolator scales the cutoff
            'chunk': r.choice([1, 7, 64, 256, 1000, 1024]) if not model else r.choice([16, 64, 100])}
     return cfg
@@ -2453,7 +2469,7 @@ PROPS = {
     'C02': {
         'run': run_C02,
         'replay_aware': True,
-        'pinned': ['C02_cutoff_scaling_R', 'C02_cutoff_scaling_B', 'C02_source_regions'],
+        'pinned': ['C02_cutoff_scaling_R', 'C02_cutoff_scaling_B', 'C02_ctor_ratio_to_table', 'C02_source_regions'],
         'gen_obligations': {'pinned-source-regions': lambda rep: gen_pinned(rep, ['windows_rs', 'sinc_rs', 'fft_core'])},
         'unproved': ['PARTIAL: the stopband attenuation figures (41..138 dB per window, 100 dB for the FFT resamplers) and the -6 dB point are not theorems: '
                      'they are properties of transcendental window functions; measured by stopband / image / -6 dB probes on every run',
